@@ -719,7 +719,57 @@ func c08EditCase(version string, L int64, which string, oldOff, newOff, added, r
 	return c07Finish(version, b, raEv{Type: "m.room.power_levels", Sender: sender, StateKey: raSK(""), Content: newC, Prev: []string{prev}})
 }
 
+// c08EnumOmitted: a sender BELOW the default thresholds (level 10 / 30 / 49; power-levels events
+// need exactly that level in this room) proposes the current content with one named level LEFT OUT.
+// A level that is left out takes its default (50 for ban / kick / redact / state_default, 0 for the
+// others) once the event is current: where that is above the sender, the event sets a threshold
+// above the sender's level.
+func c08EnumOmitted(size, shard, nshards int, emit func(c07Case)) {
+	idx := 0
+	for _, version := range vfVersions {
+		for _, L := range []int64{10, 30, 49} {
+			for _, key := range []string{"ban", "kick", "redact", "state_default", "invite", "events_default", "users_default"} {
+				for _, old := range []int64{99, 0, L} { // 99: the current content leaves it out too
+					for _, alsoUsers := range []bool{false, true} {
+						idx++
+						if idx%nshards != shard {
+							continue
+						}
+						users := map[string]int64{c07Alice: L}
+						if !vtraits[version].Creators {
+							users[c07Creator] = 100
+						}
+						r := c07Room{Version: version, HasPL: true, JoinRule: "public", Members: map[string]string{c07Creator: "join", c07Alice: "join", c07Bob: "join"}}
+						named := map[string]int64{"state_default": L, "ban": L, "kick": L, "redact": L, "invite": 0, "events_default": 0, "users_default": 0}
+						if old == 99 {
+							delete(named, key)
+						} else {
+							named[key] = old
+						}
+						oldC := c07PLContent(users, named, map[string]int64{"m.room.power_levels": L}, nil)
+						newC := oldC.without(key)
+						if alsoUsers {
+							// ... together with an ordinary, permitted change
+							um, _ := newC.get("users")
+							newC = newC.with("users", um.with(c07Bob, jnum(L-1)))
+						}
+						r.PL = oldC
+						b := c07Build(r)
+						prev := "$p:a.example"
+						if vtraits[version].Format == 2 {
+							prev = "$" + strings.Repeat("P", 43)
+						}
+						emit(c07Finish(version, b, raEv{Type: "m.room.power_levels", Sender: c07Alice, StateKey: raSK(""), Content: newC, Prev: []string{prev}}))
+					}
+				}
+			}
+		}
+	}
+}
+
 func init() {
+	vfEnum("C08/omitted-thresholds", "every case: a sender at level 10 / 30 / 49 proposes the current power levels with one named level left out (16 versions x 7 levels x current value absent / 0 / L x with or without another permitted change); non-trivial as for C08/pairs", 1, 1, 4, c08EnumOmitted, c08Check)
+	vfEnum("C07/omitted-thresholds", "the same cases judged against R-auth in both directions", 1, 1, 4, c08EnumOmitted, c07Check)
 	rule := "bounded-exhaustive product: 16 versions x sender level {50,100} x {users, events, notifications, named levels} x (existing entry at L-1/L/L+1/absent -> absent/L-1/L/L+1) x another entry added (none/L-1/L/L+1) x a third entry removed (none/L-1/L/L+1) x own entry kept/removed/lowered/raised; size = sampling stride (1 = complete); non-trivial as for C08/pairs"
 	vfEnum("C08/level-types", rule+" Here: one level of an otherwise unchanged, permitted power-levels event (each named level, a users / events / notifications entry) is replaced by each non-integer spelling (null, numeric string, padded string, float with zero fraction, exponent, fraction, boolean, array, object, huge integer), in every room version.", 1, 1, 4, c08EnumLevelTypes, c08Check)
 	vfEnum("C07/power-level-types", rule+" (the same cases judged against R-auth in both directions)", 1, 1, 4, c08EnumLevelTypes, c07Check)
